@@ -225,6 +225,7 @@ type ParseResult struct {
 	MaxAsk      uint64 // largest byte count a streaming skipper may request/buffer in one go (size fields read as unsigned)
 	DontCare    bool // empty container with unknown element type met
 	TooDeep     bool // the oracle's own recursion cap was hit
+	DeepOff     int  // offset of the first container header at nesting 65 (-1: never reached)
 }
 
 const oracleDepthCap = 400
@@ -283,6 +284,9 @@ func (p *parser) value(off int, t byte, nesting int) (int, bool) {
 		if nesting > p.r.MaxNesting {
 			p.r.MaxNesting = nesting
 		}
+		if nesting == 65 && p.r.DeepOff < 0 {
+			p.r.DeepOff = off
+		}
 		if nesting > oracleDepthCap {
 			p.r.TooDeep = true
 			return p.fail(off, CDepth, nesting)
@@ -322,6 +326,9 @@ func (p *parser) value(off int, t byte, nesting int) (int, bool) {
 		nesting++
 		if nesting > p.r.MaxNesting {
 			p.r.MaxNesting = nesting
+		}
+		if nesting == 65 && p.r.DeepOff < 0 {
+			p.r.DeepOff = off
 		}
 		if nesting > oracleDepthCap {
 			p.r.TooDeep = true
@@ -396,6 +403,9 @@ func (p *parser) value(off int, t byte, nesting int) (int, bool) {
 		if nesting > p.r.MaxNesting {
 			p.r.MaxNesting = nesting
 		}
+		if nesting == 65 && p.r.DeepOff < 0 {
+			p.r.DeepOff = off
+		}
 		if nesting > oracleDepthCap {
 			p.r.TooDeep = true
 			return p.fail(off, CDepth, nesting)
@@ -453,6 +463,7 @@ func (p *parser) value(off int, t byte, nesting int) (int, bool) {
 // Parse decides whether b starts with a complete well-formed value of type t.
 func Parse(b []byte, t byte) ParseResult {
 	var r ParseResult
+	r.DeepOff = -1
 	p := &parser{b: b, r: &r}
 	n, ok := p.value(0, t, 0)
 	r.OK, r.N = ok, n
